@@ -1289,7 +1289,7 @@ func main() {
 	fmt.Printf("C06 (e) done at %.1fs\n", elapsed())
 
 	// ---- (b) limb-boundary family
-	sizes := []int{8, 9}
+	sizes := []int{8, 9, 10}
 	if run.Thorough() {
 		sizes = []int{8, 9, 10, 16, 17, 18}
 	}
